@@ -69,11 +69,24 @@ def lean_sources_for(pid):
 
 
 def parse_theorems(pid):
-    p = os.path.join(LEAN, "Props", pid + ".lean")
-    src = strip_comments(open(p).read())
-    ns = re.search(r"^namespace\s+(\S+)", src, re.M)
-    prefix = ns.group(1) + "." if ns else ""
-    return [prefix + n for n in re.findall(r"^theorem\s+([^\s:({\[]+)", src, re.M)]
+    """fully qualified names of every `theorem` in Props/<pid>.lean and in the Props.<pid>* modules it imports"""
+    files, out = [os.path.join(LEAN, "Props", pid + ".lean")], []
+    for imp in re.findall(r"^import\s+Props\.(\S+)", open(files[0]).read(), re.M):
+        if imp.startswith(pid) and imp != pid:
+            files.append(os.path.join(LEAN, "Props", imp + ".lean"))
+    for p in files:
+        stack = []
+        for line in strip_comments(open(p).read()).split("\n"):
+            m = re.match(r"^namespace\s+(\S+)", line)
+            if m:
+                stack.append(m.group(1)); continue
+            m = re.match(r"^end\s+(\S+)", line)
+            if m and stack and stack[-1] == m.group(1):
+                stack.pop(); continue
+            m = re.match(r"^theorem\s+([^\s:({\[]+)", line)
+            if m:
+                out.append(".".join(stack + [m.group(1)]))
+    return out
 
 
 class Build:
